@@ -7,7 +7,7 @@ from sklearn.model_selection import ParameterGrid, ParameterSampler
 
 from harness import gen
 from harness.runner import D, Raised, SubCheck, sut, unexpected
-from props.c07_evaluate import build_cv, build_metric
+from props.c07_evaluate import build_cv, build_metric, raw_metric
 
 PROPERTY_ID = "C08"
 LEVEL = "exploration"
@@ -80,6 +80,16 @@ def oracle(case, ctx):
         r = sut(evaluate, f, build_cv(case["cv"]), y, None, strategy=strategy, scoring=metric)
         if isinstance(r, Raised):
             raise AssertionError("generator produced a candidate that cannot be evaluated: %s %r" % (p, r))
+        # ... and what the scores ARE: the plain metric function on each fold's forecasts
+        # (return_data gives y_test / y_pred of the same run)
+        rd = sut(evaluate, clone(base).set_params(**p), build_cv(case["cv"]), y, None, strategy=strategy, scoring=metric, return_data=True)
+        if isinstance(rd, Raised):
+            raise AssertionError("evaluate(return_data=True) failed: %r" % (rd,))
+        raw = raw_metric(case["metric"])
+        raw_mean = float(np.mean([raw(a, b) for a, b in zip(rd["y_test"], rd["y_pred"])]))
+        if not np.isclose(raw_mean, float(r[col].mean()), rtol=1e-9, atol=1e-300):
+            return [D("score_is_not_the_metric_function:%s" % ("greater_is_better" if gib else "loss"),
+                      "%s candidate %s: evaluate reports %r, the metric function gives %r" % (case["metric"], p, float(r[col].mean()), raw_mean))]
         exp_scores.append(float(r[col].mean()))
     fh = case["cv"]["fh"]
     yc = y.copy()
